@@ -207,3 +207,14 @@ pub fn n_c17_value() {
         vk_check!(CharacterData::check_value(&value, &spec, target), "check_value rejects a conforming value");
     }
 }
+
+#[cfg(not(kani))]
+pub fn n_c20_float_special() {
+    let v = f64::from_bits(vk::any_u64());
+    let mut t = String::new();
+    CharacterData::Float(v).serialize_internal(&mut t);
+    let back = CharacterData::String(t).parse_float();
+    vk_check!(back.is_some(), "the text written for a float is not read back as a number");
+    let g = back.unwrap();
+    vk_check!((v.is_nan() && g.is_nan()) || v == g, "format -> parse of a float returns a different value");
+}
